@@ -5,7 +5,10 @@ Translation validation: the Lean big-step interpreter of the MPCL subset
 Go harness generates typed programs, hands the printed source to the real
 compiler (compiler.Compile + circuit.Compute) and the serialised AST to the
 Lean driver; every output on every evaluated input must agree.  Plus every
-shipped `// @Test` vector through the real compiler.
+shipped `// @Test` vector through the real compiler.  Mode `pkg`: the same
+generator with package-level var / const / type declarations of package main,
+used directly and shadowed by parameters and locals (reference:
+Model/MpclPkg.lean, theorems in Props/C03Pkg.lean).
 """
 import concurrent.futures
 import hashlib
@@ -52,11 +55,32 @@ THEOREMS = [
     "Mpc.C03_for_unroll",
     "Mpc.C03_for_unroll_conv",
     "Mpc.C03_ssa_lower_correct_partial",
+    "Mpc.C03_ssa_lower_examples_in_fragment",
+    "Mpc.C03_ssa_lower_ex_straight",
+    "Mpc.C03_ssa_lower_ex_literals",
+    "Mpc.C03_ssa_lower_ex_ops",
+    "Mpc.C03_ssa_lower_ex_if",
+    "Mpc.C03_ssa_lower_ex_early_return",
+    "Mpc.C03_ssa_lower_ex_for",
+    "Mpc.C03_ssa_lower_ex_div",
+    "Mpc.C03_ssa_lower_excludes_deviations",
     "Mpc.C03_fuel_irrelevant",
     "Mpc.C03_fuel_irrelevant_raw",
     "Mpc.C03_shipped_vectors",
     "Mpc.C03_finding_witnesses",
     "Mpc.C03_repaired_witnesses",
+]
+
+# package-level declarations and their shadowing (Props/C03Pkg.lean; oracle of mode `pkg`)
+PKG_THEOREMS = [
+    "Mpc.C03_pkg_conservative",
+    "Mpc.C03_pkg_prelude_env",
+    "Mpc.C03_pkg_param_shadows",
+    "Mpc.C03_pkg_global_value",
+    "Mpc.C03_pkg_lookup_order",
+    "Mpc.C03_pkg_local_shadows",
+    "Mpc.C03_pkg_shipped_vectors",
+    "Mpc.C03_pkg_ok_class",
 ]
 
 # sig of an unexplained disagreement
@@ -127,6 +151,7 @@ def classify(ctx, mode, seed, ops, out, model, srcs, maxkeep=40, ssamodel=None):
     n = 0
     dis = 0
     unexplained = 0
+    local = []
     try:
         recs = [json.loads(l) for l in open(srcs, errors="replace") if l.strip()]
     except Exception as e:  # noqa: BLE001
@@ -183,7 +208,9 @@ def classify(ctx, mode, seed, ops, out, model, srcs, maxkeep=40, ssamodel=None):
                     f["model"] = bb[j]
                     f["model_undefined"] = bb[j] == "E"
                 f["localised"] = localise(a, b, ssalines[i] if ssalines and i < len(ssalines) else None)
-            ctx.fails.append(f)
+            local.append(f)
+    # headline = a wrong OUTPUT with its input, if there is one (a rejected program has no failing input)
+    ctx.fails.extend(sorted(local, key=lambda f: 0 if f["sig"] == SIG_MISMATCH and not f["defect"] else 1))
     ctx.evaluations += n
     key = "validation_%s_seed%d" % (mode, seed)
     ctx.coverage[key] = {"programs": n, "disagreements": dis, "unexplained": unexplained}
@@ -207,6 +234,9 @@ def one_run(ctx, mode, n, seed, tag=""):
 
 def run(ctx):
     ctx.prove("MpcVerif.Props.C03", THEOREMS)
+    ctx.prove("MpcVerif.Props.C03Backend", ["Mpc.C03_backend_correct", "Mpc.C03_backend_plainEval",
+                                               "Mpc.C03_backend_exclusions_necessary"])
+    ctx.prove("MpcVerif.Props.C03Pkg", PKG_THEOREMS)
     if ctx.tier == "thorough":
         ctx.leanchecker("MpcVerif.Props.C03")
     ctx.build_drv()
@@ -214,9 +244,10 @@ def run(ctx):
     if ctx.build_hx():
         jobs = [("witness", 1, ctx.seed), ("grid", 1, ctx.seed)]
         if quick:
-            jobs += [("gen", 300, ctx.seed)]
+            jobs += [("gen", 300, ctx.seed), ("pkg", 150, ctx.seed)]
         else:
             jobs += [("gen", 2500, ctx.seed + k * 1000003) for k in range(6)]  # the PRNG streams of seeds s and s+n overlap after n cases
+            jobs += [("pkg", 1500, ctx.seed + k * 1000003) for k in range(2)]
         results = []
         with concurrent.futures.ThreadPoolExecutor(max_workers=1 if quick else 6) as ex:
             futs = [ex.submit(one_run, ctx, m, n, s) for (m, n, s) in jobs]
@@ -238,6 +269,52 @@ def run(ctx):
                    c.get("tv_testvectors", 0) >= 150 and c.get("tv_testfiles", 0) >= 60,
                    "counters: %s" % {k: v for k, v in c.items() if k.startswith("tv_")})
         ctx.evaluations += c.get("tv_testvectors", 0)
+        # tie of the Lean model of ssagen (Ssa.lower, Model/MpclLower.lean) to the REAL ssagen: harness/cmd/c03/lower.go,
+        # lean/Driver/C03Lower.lean; per program and input: ssaEval(lower p) = ssaEval(real SSA) = source = circuit
+        nlow = 250 if quick else 3000
+        ops, out, meta = ctx.run_hx("lower", nlow, timeout=2400)
+        ctx.absorb_meta(meta, prefix="")
+        for d in ctx.correspond("lower-vs-real-ssagen", ops, out, canon=lambda s: s.split(" #")[0]):
+            # right after the headline (first unexplained) failure: the replay file keeps only the first 10 failures
+            at = next((i + 1 for i, f in enumerate(ctx.fails) if not ctx.is_known(f)), len(ctx.fails))
+            ctx.fails.insert(at, {"sig": "c03-lower-tie-mismatch", "mode": "lower", "seed": ctx.seed, "line": d["index"] + 1,
+                              "op": vlib.clip(d["op"], 3000), "impl": d["impl"], "model": d["model"],
+                              "first_diff": d["first_diff"],
+                              "rerun": "cd /verif/harness && go build -tags verif -o /tmp/c03 ./cmd/c03 && MPCLDIR=%s /tmp/c03 "
+                                       "lower -seed %d -n %d -tier %s -ops /tmp/o -out /tmp/r -meta /tmp/m && "
+                                       "/verif/lean/.lake/build/bin/drv_c03 < /tmp/o | sed 's/ #.*//' | diff - /tmp/r   (line %d)"
+                                       % (vlib.REPO, ctx.seed, nlow, ctx.tier, d["index"] + 1)})
+        c = ctx.coverage.get("counters", {})
+        try:
+            mlines = open(ops + ".model", errors="replace").read().split("\n")
+        except Exception:  # noqa: BLE001
+            mlines = []
+        ctx.coverage["lower_tie"] = {
+            "generator_programs": c.get("lower_gen_total", 0), "generator_inside_fragment": c.get("lower_gen_inside", 0),
+            "share_inside": round(c.get("lower_gen_inside", 0) / max(1, c.get("lower_gen_total", 0)), 3),
+            "focused_programs": c.get("lower_frag_total", 0), "programs_tied": c.get("lower_programs", 0),
+            "exhaustive": c.get("lower_programs_exhaustive", 0), "evaluations": c.get("lower_evaluations", 0),
+            "compile_rejected": c.get("lower_compile_rejected", 0), "ssa_skipped": c.get("lower_ssa_skipped", 0),
+            "structural_same_programs": sum(1 for l in mlines if " #same" in l),
+            "structural_drift_programs": sum(1 for l in mlines if " #drift" in l),
+            "structural_drift_other_than_extra_phi": sum(
+                1 for l in mlines if " #drift" in l and
+                any(not (t.startswith("phi/") and "+" in t) for t in l.split(" #drift ")[1].split(" n=")[0].split())),
+            "outside_reasons": {k[len("lower_outside_"):]: v for k, v in c.items() if k.startswith("lower_outside_")},
+            "features": {k[len("lowfeat_"):]: v for k, v in c.items() if k.startswith("lowfeat_")}}
+        ctx.evaluations += c.get("lower_evaluations", 0)
+        lowneed = ["if", "if_else", "if_no_else", "early_return", "nested_return", "both_return", "one_branch_returns",
+                   "return_in_loop", "loop_body_returns", "for", "for_zero_iters", "loopvar_operand", "div", "mod", "sdiv", "smod", "udiv", "umod",
+                   "shift", "shift_ge_width", "shr_arith", "cmp_signed", "cmp_unsigned", "land_lor", "not", "neg",
+                   "cast_sext", "cast_zext", "cast_trunc", "literal_wide", "literal_left", "bool_var", "decl_zero", "define",
+                   "opassign", "incdec", "two_results"]
+        lowmiss = [k for k in lowneed if c.get("lowfeat_" + k, 0) == 0]
+        ctx.oblige("lower tie reached every fragment feature (%d features) on >= %d programs, none skipped or rejected"
+                   % (len(lowneed), nlow // 2),
+                   not lowmiss and c.get("lower_programs", 0) >= nlow // 2 and c.get("lower_frag_not_in_fragment", 0) == 0
+                   and c.get("lower_ssa_skipped", 0) == 0,
+                   "never generated: %s; %s" % (lowmiss, {k: v for k, v in ctx.coverage["lower_tie"].items()
+                                                         if k != "features"}))
         # generator distribution obligations (measured, not assumed)
         need = ["feat_cast_sext", "feat_cast_zext", "feat_cast_trunc", "feat_op_sdiv", "feat_op_smod", "feat_op_udiv",
                 "feat_shr_arith", "feat_shift_ge_width", "feat_early_return", "feat_for", "feat_for_nested",
@@ -256,6 +333,27 @@ def run(ctx):
         missing = [k for k in need if c.get(k, 0) == 0]
         ctx.oblige("generator reached every listed language feature (%d features)" % len(need), not missing,
                    "never generated: %s" % missing)
+        # package-level declarations (mode pkg): what the package-level names went through is MEASURED on the
+        # finished programs by a scope-aware walk (gen_pkg.go tagScopes), not taken from the generator's intent
+        need_pkg = ["var_init", "var_zero", "var_zero_aggregate", "const_typed", "const_untyped", "named_array_type",
+                    "declared_after_functions",
+                    "var_read_main", "var_read_callee", "var_read_in_if", "var_read_in_for", "var_aggregate_read",
+                    "const_read_main", "const_read_callee",
+                    "var_assigned_main", "var_assigned_in_if_main", "var_assigned_in_for_main",
+                    "shadow_by_param_main", "shadow_by_param_callee", "shadow_by_local_main", "shadow_by_local_callee",
+                    "shadow_of_const", "shadow_same_type", "shadow_other_type", "read_before_shadow",
+                    "shadow_read_main", "shadow_read_callee", "shadow_read_in_if_main", "shadow_read_in_for_main",
+                    "shadow_read_after_if_main", "shadow_read_after_if_callee", "shadow_read_after_for_main",
+                    "shadow_assigned_in_if_main", "shadow_assigned_in_if_callee", "shadow_assigned_in_for_main"]
+        pkgc = {k[len("pkg_feat_pkg_"):]: v for k, v in c.items() if k.startswith("pkg_feat_pkg_")}
+        ctx.coverage["pkg_scoping_classes"] = pkgc
+        pmiss = [k for k in need_pkg if pkgc.get(k, 0) == 0]
+        pbug = {k: v for k, v in pkgc.items() if k.startswith("BUG_")}
+        ctx.oblige("package-level declarations: every listed scoping class occurred (%d classes: var/const/type declarations "
+                   "used in main and callees, assigned in main, shadowed by parameters and function-level locals of the same "
+                   "and of another type, the shadow read/assigned inside and after branches and loops), none outside the "
+                   "modelled class" % len(need_pkg), not pmiss and not pbug and c.get("pkg_programs", 0) >= 100,
+                   "never generated: %s; outside the class: %s; programs %s" % (pmiss, pbug, c.get("pkg_programs", 0)))
         # operator x width grid: every (operator, width) cell compiled, evaluated and agreeing
         rc_cells, cells_out = vlib.sh([ctx.hx, "grid", "-cells"], env=vlib.GOENV, timeout=60)
         want_cells = cells_out.split() if rc_cells == 0 else []
@@ -282,6 +380,18 @@ def run(ctx):
         ctx.oblige("SSA-level tie exercised every supported opcode (%d opcodes), skipped programs < 2%%" % len(need_ops),
                    not miss_ops and ctx.coverage.get("ssa_skipped", 0) * 50 <= max(1, ctx.coverage.get("ssa_programs", 0)),
                    "opcodes never seen: %s; skipped %s" % (miss_ops, ctx.coverage.get("ssa_skip_reasons")))
+        # back end (SSA -> gates), T4: the real Program.Circuit gate list (before the optimisation passes) of a dumped
+        # SSA step list = Lean ssaCompile of that step list, gate for gate; C03_backend_correct is about ssaCompile
+        bops, bout, bmeta = ctx.run_hx("backend", 120 if quick else 2500)
+        ctx.absorb_meta(bmeta, prefix="backend_")
+        btags = {}
+        ctx.correspond("backend: ssaCompile(dumped SSA steps) = real Program.Circuit gate list", bops, bout,
+                       canon=lambda l: (btags.__setitem__(l.split(" ")[0], btags.get(l.split(" ")[0], 0) + 1), l.partition(" ")[2])[1])
+        ctx.coverage["backend_theorem_scope"] = {k: v for k, v in btags.items() if k != "G"}
+        ctx.oblige("backend tie: >= 100 programs compared gate for gate, >= 70% of them inside the hypothesis of "
+                   "C03_backend_correct (tag S)", c.get("backend_compared", 0) >= 100 and
+                   btags.get("S", 0) * 10 >= 7 * c.get("backend_compared", 0), "tags %s, counters %s" % (
+                       btags, {k: v for k, v in c.items() if k.startswith("backend_") and "_op_" not in k}))
         ctx.coverage["programs_exhaustive_inputs"] = c.get("programs_exhaustive", 0)
         ctx.coverage["circuit_evaluations"] = c.get("evaluations", 0) + c.get("witness_evaluations", 0)
     ctx.coverage["rule"] = (
@@ -291,12 +401,23 @@ def run(ctx):
         "op-assign/++/--, elements and fields, if/else-if/else with early return, for loops with < <= > >= != and "
         "steps +-1..3, nested, return inside loops; twin ifs: if/else whose branches each contain an else-less inner if assigning the same variable(s) the same constant/variable under different computed conditions, also one level deeper, with early return, mixed with other assignments; the assigned variables are folded into the results); plus a fixed operator x width grid (mode `grid`): for 30 widths 15..130 (odd widths, 2^k and neighbours, both sides of every Karatsuba/array multiplier threshold) programs `a op b` with two run-time operands for * + - comparisons shifts, and for 9 widths / % signed and unsigned, on 40 (thorough 160) boundary-biased + random input pairs; 45% of the programs have <= 12 (thorough: <= 14/16) input bits "
         "and are evaluated on ALL inputs (per-program claim complete), the others on 24/48 boundary-biased tuples "
-        "(0, 1, -1, min, max, min+1, -2, 0x55.., small, random per scalar component); distinct = distinct program "
+        "(0, 1, -1, min, max, min+1, -2, 0x55.., small, random per scalar component); mode `pkg` (150 / 3000 programs): the same "
+        "generator with package-level declarations of package main - `var` (initialised / zero value, scalars, arrays, structs), "
+        "`const` (typed / untyped, also declared after the functions), `type Name [n]T` - used directly in main and in callees, "
+        "assigned in main (before / inside / after if/else and unrolled loops), shadowed by parameters, named results and "
+        "function-level `var` locals of the same or another type, the shadow read and assigned before / inside / after "
+        "data-dependent branches and loops (classes measured by a scope-aware walk of the finished programs); distinct = distinct program "
         "S-expressions; ~5% of the programs are probes of the remaining known deviations (inner-block redeclaration, int->wider uint cast, signed widening of a top-bit-set constant; tagged, matched narrowly); the shapes repaired in /repo (untyped literal vs narrow signed operand, constant conversion sharing `$n`, constant on the left of an unsigned comparison, named result read before assignment) occur in ordinary programs and must agree")
     ctx.assumptions += [
         "the reference semantics is the Lean interpreter Model/Mpcl.lean: Go-like block scoping, wrapping arithmetic, signed / "
         "truncating, signed % = |a| mod |b| (testsuite/lang/modi.mpcl), casts sign-extend a signed source; theorems in "
         "Props/C03.lean tie every operator to BitVec and the shipped @Test vectors to the interpreter",
+        "package-level declarations: reference = Model/MpclPkg.lean (Go scoping: locals, then parameters, then the package level; "
+        "theorems in Props/C03Pkg.lean); out of the quantifier because neither documentation nor a shipped test fixes them and "
+        "MPCL is known to differ from Go: assignment to a package-level variable outside main or of a variable a callee uses "
+        "(Pkg.ok; MPCL: main's assignment is invisible to callees, a callee's is unconditional), shadowing declarations inside "
+        "blocks (function-level scoping, C03-inner-block-redeclaration), `g := e` for a package-level g (rejected: 'no new "
+        "variables on left side of :='), a package-level `var` declared after a function using it (rejected: 'undefined variable')",
         "excluded from the grammar because neither documentation nor tests fix them: division by zero, out-of-range variable "
         "index, negative literals and constant-only subexpressions (constant folding is C12), constants bound to whole "
         "variables (`x = 3`, constant call arguments), unsized int/uint, pointers, slices, strings, builtins, packages",
@@ -315,7 +436,7 @@ def run(ctx):
         "early-return elimination, loop unrolling for EVERY trip count (for = n-fold composition of the body, both "
         "directions), fuel irrelevance, the shipped @Test vectors evaluated in the model, witnesses of the known "
         "deviations; SSA level: Lean evaluator ssaEval of the real compiler's SSA step lists (Model/MpclSsa.lean) and the "
-        "theorem that on the straight-line fragment ssaEval(lower p) = run p for a Lean model `lower` of ssagen "
+        "theorem that on the scalar fragment (literals, all operators, if/else with early return, unrolled for) ssaEval(lower p) = run p for a Lean model `lower` of ssagen, itself tied to the real ssagen on every run (mode lower) "
         "(C03_ssa_lower_correct_partial).  Validation, three-way on every generated program and input: ssaEval(dumped "
         "real SSA) = Lean source interpreter = real compiler.Compile + circuit.Compute (a source-vs-circuit disagreement "
         "is localised to AST->SSA or SSA->circuit by the middle term), on generated programs "
